@@ -119,3 +119,26 @@ def Mat7.ofList {α : Type} [Inhabited α] (l : List α) : Mat7 α :=
   Mat7.ofRows (Vec7.ofList l) (Vec7.ofList (l.drop 7)) (Vec7.ofList (l.drop 14))
     (Vec7.ofList (l.drop 21)) (Vec7.ofList (l.drop 28)) (Vec7.ofList (l.drop 35))
     (Vec7.ofList (l.drop 42))
+
+/-! ## vector / matrix arithmetic used by the beam statistics -/
+namespace Vec7
+variable {α : Type} [Scalar α]
+def zero : Vec7 α := ⟨0.0, 0.0, 0.0, 0.0, 0.0, 0.0, 0.0⟩
+def add (a b : Vec7 α) : Vec7 α := ⟨a.a0 + b.a0, a.a1 + b.a1, a.a2 + b.a2, a.a3 + b.a3, a.a4 + b.a4, a.a5 + b.a5, a.a6 + b.a6⟩
+def sub (a b : Vec7 α) : Vec7 α := ⟨a.a0 - b.a0, a.a1 - b.a1, a.a2 - b.a2, a.a3 - b.a3, a.a4 - b.a4, a.a5 - b.a5, a.a6 - b.a6⟩
+def smul (c : α) (a : Vec7 α) : Vec7 α := ⟨c * a.a0, c * a.a1, c * a.a2, c * a.a3, c * a.a4, c * a.a5, c * a.a6⟩
+/-- outer product `a bᵀ` -/
+def outer (a b : Vec7 α) : Mat7 α :=
+  ⟨smul a.a0 b, smul a.a1 b, smul a.a2 b, smul a.a3 b, smul a.a4 b, smul a.a5 b, smul a.a6 b⟩
+def sum (l : List (Vec7 α)) : Vec7 α := l.foldr add zero
+end Vec7
+
+namespace Mat7
+variable {α : Type} [Scalar α]
+def zero : Mat7 α := ⟨.zero, .zero, .zero, .zero, .zero, .zero, .zero⟩
+def add (A B : Mat7 α) : Mat7 α :=
+  ⟨.add A.r0 B.r0, .add A.r1 B.r1, .add A.r2 B.r2, .add A.r3 B.r3, .add A.r4 B.r4, .add A.r5 B.r5, .add A.r6 B.r6⟩
+def smul (c : α) (A : Mat7 α) : Mat7 α :=
+  ⟨.smul c A.r0, .smul c A.r1, .smul c A.r2, .smul c A.r3, .smul c A.r4, .smul c A.r5, .smul c A.r6⟩
+def sum (l : List (Mat7 α)) : Mat7 α := l.foldr add zero
+end Mat7
